@@ -1,17 +1,17 @@
-SPECIFICATION Spec
+SPECIFICATION SimSpec
 CONSTANTS
-  WorkerCpus <- B_Workers
-  WorkerGroup <- B_Groups
-  Menu <- B_Menu
-  Classes <- B_Classes
-  MaxLosses = 1
-  MaxCancels = 0
+  WorkerCpus <- J_Workers
+  WorkerGroup <- J_Groups
+  Menu <- J_Menu
+  Classes <- J_Classes
+  MaxLosses = 2
+  MaxCancels = 1
   MaxFails = 1
-  MaxLaunchFails = 1
+  MaxLaunchFails = 0
   PfReserve = 0
-  PfMax = 1
-  Eager = TRUE
-  Journaling = FALSE
+  PfMax = 0
+  Eager = FALSE
+  Journaling = TRUE
 CHECK_DEADLOCK FALSE
 INVARIANTS
   NoPanic
@@ -45,7 +45,8 @@ INVARIANTS
   C14_NoAbortWithin
   C05_MnExclusive
   C05_MnWorkersIdle
-  C01_OutcomeAtRest
-  C02_QuiescentOk
-PROPERTIES
-  StepProps
+  J_RestoreSucceeds
+  J_OutcomesRestored
+  J_InstFresh
+  J_CrashKept
+  J_DepsConsistent
